@@ -532,6 +532,60 @@ func (g *gen) genTxn() *TxnProg {
 	return t
 }
 
+// emptiedTopBlockTemplate rewrites a single-client case into the history "the collection
+// once reached a second block, every row of that block was deleted, a column is created,
+// and the collection grows into the block again": block 0 is full except for one to three
+// holes (the row count stays below the block boundary), block 1 holds a few rows that the
+// first transaction deletes; then a late column, then inserts that fill the holes and go on
+// into block 1, every one storing into the late column and the old ones.
+func emptiedTopBlockTemplate(cs *Case, seed uint64, run int) {
+	r := NewRng(seed, uint64(run), 102)
+	pf := &Prefill{Blocks: 2, KeepFull: []int{0}}
+	for i, n := 0, r.Range(1, 3); i < n; i++ {
+		pf.Holes = append(pf.Holes, uint32(r.Intn(1<<14)))
+	}
+	top := []uint32{1 << 14, 1<<14 + 1, 1<<14 + 63, 1<<14 + 64, 1<<14 + 4095, 1<<15 - 1}
+	for _, o := range top {
+		if r.Chance(0.5) {
+			pf.Survivors = append(pf.Survivors, o)
+		}
+	}
+	if len(pf.Survivors) == 0 {
+		pf.Survivors = []uint32{1 << 14}
+	}
+	cs.Cfg.Prefill = pf
+	cs.Cfg.Capacity = []int{1, 64, 1024, 16384}[r.Intn(4)]
+	del := &TxnProg{}
+	for _, o := range pf.Survivors {
+		del.Ops = append(del.Ops, Op{Kind: "delete", Target: Target{Mode: "abs", K: int(o)}})
+	}
+	kinds := append([]Kind{}, numericKinds...)
+	kinds = append(kinds, KBool, KString, KEnum)
+	late := ColSpec{Name: "late_top", Kind: kinds[r.Intn(len(kinds))]}
+	g := &gen{r: r, cs: cs, av: avoid{enumCollision: true}}
+	g.cols = append(append([]ColSpec{}, cs.Schema...), late)
+	steps := []Step{{Kind: "txn", Txn: del}}
+	if r.Chance(0.3) {
+		steps = append(steps, Step{Kind: "restart", Arg: r.Intn(3)})
+	}
+	steps = append(steps, Step{Kind: "createcol", Col: &late})
+	for t, nt := 0, r.Range(1, 3); t < nt; t++ {
+		ins := &TxnProg{}
+		for i, n := 0, r.Range(2, 5); i < n; i++ {
+			op := Op{Kind: "insert"}
+			for _, c := range g.cols {
+				if c.Name != "expire" && c.Kind != KKey && c.Kind != KRecord && (c.Name == late.Name || r.Chance(0.5)) {
+					op.Writes = append(op.Writes, Write{Col: c.Name, Val: g.genVal(c), Via: r.Intn(3)})
+				}
+			}
+			ins.Ops = append(ins.Ops, op)
+		}
+		steps = append(steps, Step{Kind: "txn", Txn: ins})
+	}
+	cs.Steps = steps
+	cs.Indexes = nil
+}
+
 // genSeq materialises a single-client history.
 func genSeq(prop string, seed uint64, run int, p seqProfile, av avoid) *Case {
 	r := NewRng(seed, uint64(run), 1)
